@@ -722,6 +722,22 @@ class Unit:
         joined = "".join(out)
         jm = mask(joined)
         out = list(joined)
+        # R7.log: logging macro statements (tracing / log) carry no library state: dropped, counted
+        for lm in re.finditer(r"(?<![\w:])(?:tracing::|log::)?(?:trace|debug|info|warn|error)!\s*\(", jm):
+            o = jm.find("(", lm.start())
+            e2 = match_brace(jm, o, "(", ")")
+            k = e2
+            while k < len(jm) and jm[k] in " \t":
+                k += 1
+            if k < len(jm) and jm[k] == ";":
+                e2 = k + 1
+            for q in range(lm.start(), e2):
+                if out[q] != "\n":
+                    out[q] = " "
+            self.counts["R7.log"] = self.counts.get("R7.log", 0) + 1
+        joined = "".join(out)
+        jm = mask(joined)
+        out = list(joined)
         i = 0
         while i < len(joined):
             if jm.startswith("#[", i):
